@@ -35,6 +35,10 @@ RB_RES = 'option (colbounds * list nat)'
 DUMP_FN = 'fun bs => let j := dump bs in (jx0 j, jy0 j, jx1 j, jy1 j)'
 DUMP_CASE = 'list bbox'
 DUMP_RES = 'entries * entries * entries * entries'
+PK_FN = ("fun '(dir, wi) => let '(files, ab) := pack_layout dir wi in "
+         "(map (fun f => (snd (fst f), snd f)) files, ab)")
+PK_CASE = 'string * list (option (nat * list (string * bbox)))'
+PK_RES = 'list (string * nat) * colbounds'
 LOAD_FN = 'load_cols'
 LOAD_CASE = 'list (string * bounds_json)'
 LOAD_RES = 'option colbounds'
@@ -52,7 +56,73 @@ def _nan_eq_rows(a, b):
     return a == b
 
 
-def build_dataset(rep, sc, spec):
+class _DaskProxy:
+    """stands in for the name `dask` inside spatialpandas.dask while pack_partitions_to_parquet
+    runs: records what dask.compute returns (the second call returns write_info)"""
+
+    def __init__(self, real):
+        self._real = real
+        self.log = []
+
+    def __getattr__(self, n):
+        return getattr(self._real, n)
+
+    def compute(self, *a, **k):
+        r = self._real.compute(*a, **k)
+        self.log.append(r)
+        return r
+
+
+def observe_pack(rep, ddf, path, spec, pk):
+    import spatialpandas.dask as spd
+    proxy = _DaskProxy(spd.dask)
+    spd.dask = proxy
+    try:
+        ddf.pack_partitions_to_parquet(path, npartitions=spec['npartitions'], p=spec.get('p', 6))
+    finally:
+        spd.dask = proxy._real
+    infos = [r for r in proxy.log
+             if isinstance(r, tuple) and r and all(x is None or (isinstance(x, dict) and 'total_bounds' in x)
+                                                   for x in r)]
+    if len(infos) != 1:
+        rep.count('pack_write_info_not_observed')
+        return None
+    return list(infos[0])
+
+
+def pack_case(rep, ds, write_info, pk):
+    """the observed write_info through Model/MetaCodec.v pack_layout = the files and the bounds found"""
+    path, pieces = ds['path'], ds['pieces']
+    wi_term = [None if x is None else
+               C.Some((C.Nat(k), [(str(c), tuple(U.gnum(v) for v in b)) for c, b in x['total_bounds'].items()]))
+               for k, x in enumerate(write_info)]
+    nonempty = [k for k, x in enumerate(write_info) if x is not None]
+    raw = U.raw_spatial_metadata(path)
+    stored = [(col, [tuple(U.gnum(dict(dict(cols)[c])[str(j)]) for c in ('x0', 'y0', 'x1', 'y1'))
+                     for j in range(len(dict(cols)['x0']))]) for col, cols in (raw or [])]
+    files = sorted(f for f in os.listdir(path) if f.endswith('.parquet'))
+    real_files = [(os.path.join(path, f'part.{j}.parquet'), C.Nat(k)) for j, k in enumerate(nonempty)]
+    meta = {'stream': 'dataset', 'specs': [ds['spec']], 'write_info_nonempty': nonempty,
+            'n_write_info': len(write_info), 'files': files}
+    if len(files) != len(nonempty) or len(pieces) != len(nonempty):
+        rep.violation('pack-files', f'{len(files)} part files for {len(nonempty)} non-empty output partitions', meta)
+        return
+    for j, k in enumerate(nonempty):
+        x = write_info[k]
+        if x['meta'].num_rows != len(pieces[j]) or any(
+                tuple(U.gnum(v) for v in b) != _tb(pieces[j][c]) for c, b in x['total_bounds'].items()):
+            rep.violation('pack-file-content', f'part.{j}.parquet does not hold output partition {k}',
+                          {**meta, 'file': j, 'partition': k})
+            return
+    pk[0].append((path, wi_term))
+    pk[1].append((real_files, stored))
+    pk[2].append(meta)
+    rep.count('pack:compacted' if len(nonempty) < len(write_info) else 'pack:dense')
+    if len(nonempty) < len(write_info):
+        rep.nontrivial(('pack-compacted', json.dumps(ds['spec'], sort_keys=True)))
+
+
+def build_dataset(rep, sc, spec, pk=None):
     """write one dataset; returns dict(path, pieces=[frame per part file i], geom=[names])"""
     import dask.dataframe as dd
     import random
@@ -76,7 +146,7 @@ def build_dataset(rep, sc, spec):
     if spec['writer'] == 'to_parquet':
         ddf.to_parquet(path, compression=spec.get('compression', 'snappy'))
     else:
-        ddf.pack_partitions_to_parquet(path, npartitions=spec['npartitions'], p=spec.get('p', 6))
+        write_info = observe_pack(rep, ddf, path, spec, pk)
     files = sorted(f for f in os.listdir(path) if f.endswith('.parquet'))
     nfiles = len(files)
     pieces = []
@@ -87,8 +157,11 @@ def build_dataset(rep, sc, spec):
                           {'stream': 'dataset', 'spec': spec, 'files': files})
             return None
         pieces.append(read_parquet(f))
-    return {'path': path, 'pieces': pieces, 'geom': [c for c in df.columns if c in ('ga', 'gb')],
-            'frame': df, 'spec': spec}
+    ds = {'path': path, 'pieces': pieces, 'geom': [c for c in df.columns if c in ('ga', 'gb')],
+          'frame': df, 'spec': spec}
+    if spec['writer'] != 'to_parquet' and write_info is not None and pk is not None:
+        pack_case(rep, ds, write_info, pk)
+    return ds
 
 
 def boxes_for(rng, rows, nrandom):
@@ -161,6 +234,14 @@ def check_read(rep, datasets, how, geometry, boxes, rb_cases, rb_res, rb_meta, c
             continue
         r, got, kept = ob
         rep.evaluations += 1
+        for col, fr in r._partition_bounds.items():
+            # row j describes partition j: labels 0..k-1, named 'partition'
+            if list(fr.index) != list(range(len(fr))) or fr.index.name != 'partition' \
+                    or list(fr.columns) != ['x0', 'y0', 'x1', 'y1']:
+                rep.violation('bounds-frame-labels',
+                              f'_partition_bounds[{col!r}] is not labelled 0..{len(fr) - 1} / partition: '
+                              f'{list(fr.index)[:8]} name={fr.index.name!r} columns={list(fr.columns)}',
+                              {**meta0, 'box': box, 'column': col})
         rb_cases.append((ds_term, C.Nat(len(pieces)), active, U.qbox_term(box)))
         rb_res.append(C.Some((U.colbounds(r._partition_bounds), [C.Nat(i) for i in kept])))
         rb_meta.append({**meta0, 'box': box, 'kept': kept,
@@ -388,6 +469,7 @@ def run(rep):
                 'document with >= 11 keys')
     rb = ([], [], [])
     dm = ([], [], [])
+    pk = ([], [], [])
     cost = [0]
     acc = (rb[0], rb[1], rb[2], cost)
     with dask.config.set(scheduler='synchronous'), U.Scratch() as sc:
@@ -405,7 +487,7 @@ def run(rep):
         for si, spec in enumerate(specs):
             sub = U.Scratch()
             with sub as s2:
-                ds = build_dataset(rep, s2, {**spec, 'tag': 'a'})
+                ds = build_dataset(rep, s2, {**spec, 'tag': 'a'}, pk)
                 if ds is None:
                     continue
                 dump_cases([ds], *dm)
@@ -451,6 +533,14 @@ def run(rep):
         rep.violation(f'stored-json-differs:{m["specs"][0]["writer"]}',
                       'the JSON stored in _common_metadata is not the dump of the true extents of the part files',
                       {**m, 'stored': dm[1][i]})
+    bad = C.coq_mismatches(IMPORTS, PK_FN, PK_CASE, PK_RES, pk[0], pk[1], shard=40)
+    for i in bad[:1]:
+        rep.violation('pack-layout-differs',
+                      'files / recorded bounds of pack_partitions_to_parquet differ from Model/MetaCodec.v pack_layout '
+                      'applied to the observed write_info',
+                      {**pk[2][i], 'found': pk[1][i],
+                       'model': C.coq_eval(IMPORTS, f'({PK_FN}) {C.coq(pk[0][i])}')})
+    rep.extra['pack_layout_cases'] = len(pk[0])
     rep.extra['reads'] = cost[0]
     rep.extra['datasets'] = len(dm[0])
     for m, r in list(zip(rb[2], rb[1]))[:3]:
@@ -470,6 +560,7 @@ def replay(rep, rp):
         else:
             rb = ([], [], [])
             dm = ([], [], [])
+            pkr = ([], [], [])
             acc = (rb[0], rb[1], rb[2], [0])
             specs = rp['specs']
             if specs and 'rows' in specs[0]:
@@ -483,7 +574,7 @@ def replay(rep, rp):
                     spec['kinds'] = tuple(spec['kinds'])
                     spec['subtypes'] = tuple(spec['subtypes'])
                     spec['tag'] = 'ab'[j] if rp.get('how') != 'list' or True else spec.get('tag', '')
-                    dss.append(build_dataset(rep, sc, spec))
+                    dss.append(build_dataset(rep, sc, spec, pkr))
                 if any(d is None for d in dss):
                     return False
                 dump_cases(dss[:1], *dm)
@@ -496,6 +587,10 @@ def replay(rep, rp):
             bad = C.coq_mismatches(IMPORTS, DUMP_FN, DUMP_CASE, DUMP_RES, dm[0], dm[1])
             for i in bad:
                 print('stored json differs:', dm[2][i], dm[1][i])
+                rep.violation('model', 'differs', {})
+            bad = C.coq_mismatches(IMPORTS, PK_FN, PK_CASE, PK_RES, pkr[0], pkr[1])
+            for i in bad:
+                print('pack layout differs:', pkr[2][i], pkr[1][i])
                 rep.violation('model', 'differs', {})
     for v in rep.violations:
         print('still:', v['signature'], v['what'])
